@@ -81,11 +81,11 @@ func mirrorLoopState(f *ssa.Function) (int, string) {
 			return
 		}
 		t := tb.T(ifi.Cond)
-		if !(t.isBin("==") || t.isBin("!=")) {
+		if !(t.isBin("==") || t.isBin("!=") || t.isBin("<") || t.isBin("<=")) {
 			return
 		}
 		for k := 0; k < 2; k++ {
-			x, y := t.Args[k], t.Args[1-k]
+			x, y := t.Args[k], stripConv(t.Args[1-k])
 			if y.Op == "call" && strings.Contains(y.Name, "omplement") && len(y.Args) == 1 {
 				if a, b := isElem(x), isElem(y.Args[0]); a != nil && b != nil {
 					A, B, at = a, b, ifi
